@@ -9,8 +9,8 @@ V = os.path.dirname(os.path.dirname(os.path.abspath(__file__)))
 TEXT = {
  'C01': ('refinement theorem R (compile correctness of the emission, by induction on PEG derivations, memo table included) and its closure C01_generated_parser: for every linked grammar passing decidable checks, every rule as entry and every input, each run of the function the model generator emits returns true exactly when the PEG semantics matches a prefix and stops at its end, never panics; plus determinism of the semantics and soundness of the reference interpreter; tied to /repo by T-emit (whole emitted programs equal the model generator\'s IR) and T-run (compiled parsers vs model vs spec on every rule as entry).',
          'Lean model of Compile/runtime tied by differential execution; Go statement semantics, go/parser, go/printer trusted.'),
- 'C02': ('-inline: same theorems and ties as C01 on the -inline emission, plus real-vs-real comparison with the default parser of the same grammar. -switch: tie pending the optimiser model.',
-         'as C01'),
+ 'C02': ('-inline: Eval_expandG_iff + R on the inlined program: C02_inline_same_as_default (same verdict, end, tokens, error token as the default parser). -switch: the rewrite is unsound on some grammars (known finding F-C02-1), so it is decided by translation validation: a sound first-set analysis (firstE_sound), the decidable check switchSafe (valid rearrangement of every rewritten choice + parentDetect elisions justified by the case keys), and C02_switch_same_as_default: whenever switchSafe holds, the -switch parser and the default parser return the same verdict, prefix and token sequence on every input from every post-Reset state and never panic; the driver evaluates switchSafe on every -switch program of the sweeps, and a disagreement on a switchSafe program is never attributed to the known finding. Ties: T-emit (the Lean transcription of optimizeAlternates + compile equals the real emission on every program, all option sets), T-run real vs model vs spec incl. the exhaustive skeleton enumeration of 3-way choices, real vs real against the default parser.',
+         'as C01; -switch combined with -inline or -noast: tie only'),
  'C03': ('token stream = post-order of the derivation forest: spec-level theorems + T-run comparison of Tokens() with postorder of the evalF forest (rune offsets, multi-byte inputs).', 'as C01'),
  'C04': ('Execute() = left-to-right action trace with the last completed capture: proved for all forests (C04Exec) over the token list; tied by T-run probe-action traces.', 'as C01; user action code is modelled as opaque trace events'),
  'C05': ('AST()/printers = pruned derivation tree: proved for all well-nested forests (C05Ast), incl. equal spans and zero-width tokens; tied by T-run (SprintSyntaxTree, up/next walk).', 'as C01; strconv.Quote is a parameter of the model (compared as strings in the tie)'),
@@ -20,9 +20,9 @@ TEXT = {
          'Go type checker, go/parser, go/printer and gofmt are oracles of the tie, not modelled; no mechanised Go semantics is available offline.'),
  'C09': ('logic core proved for all schedules (Bernstein: threads with disjoint read/write footprints give a schedule-independent final state; no conflicting access), instantiated by kernel-decided disjointness of the footprints of the two analysis goroutines, which a go/ast+go/types translator re-extracts from tree/peg.go on every run (also: no map iteration, no package-level writes, no unknown constructs); dynamic validation with the race detector: concurrent Compiles, GOMAXPROCS 1/2/16, byte-identical outputs and warnings across repetitions and processes.',
          'Go memory model (DRF => SC) and WaitGroup ordering assumed; extractor soundness assumed and validated by -race runs; determinism of the sequential rest of Compile is the Lean model of Compile tied by T-emit.'),
- 'C12': ('C12_reset_like_fresh / C12_history_irrelevant: R holds from any post-Reset state (arbitrary stale token buffer), so a reused parser is indistinguishable from a fresh one; tie: histories on one instance x U in {uint16,uint32,uint64,uint} x Size in {unset,1,32768} against fresh parsers, plus the uint16 width probe (known finding F-C12-1).',
+ 'C12': ('C12_reset_like_fresh / C12_history_irrelevant: R holds from any post-Reset state (arbitrary stale token buffer), so a reused parser is indistinguishable from a fresh one; tie: histories on one instance x U in {uint16,uint32,uint64,uint} x Size in {unset,1,32768} against fresh parsers, the Lean machine model run as one long-lived parser (St.reset threaded) against the real steps, every third T-run case of the core sweep as a second use of its parser, plus the uint16 width probe (known finding F-C12-1).',
          'integers are unbounded in the model (width is the known finding); slice capacity/growth invisible in the model (covered by the tie).'),
- 'C13': ('C13_no_panic / C13_token_slices from R: no run ends in the panic outcome and all offsets are inside the rune sequence; tie: byte-level inputs (invalid UTF-8, NUL, non-BMP, U+10FFFF, 90000 runes) on generated grammars (real vs model vs spec) and on the shipped grammars (no panic, offsets in range).',
+ 'C13': ('C13_no_panic / C13_token_slices from R: no run ends in the panic outcome and all offsets are inside the rune sequence; C13_every_buffer_is_admissible: the Lean model of Go\'s []rune(string) decoding never yields the end symbol for ANY byte string (so R applies to every Buffer) and is no longer than the byte string; tie: byte-level inputs (invalid UTF-8, NUL, non-BMP, U+10FFFF, 90000 runes) on generated grammars (real vs model vs spec) and on the shipped grammars (no panic, offsets in range).',
          'as C01; for shipped grammars only the no-panic/offset oracle runs (their actions are arbitrary Go).'),
  'C14': ('product non-interference proved for all schedules and any number of instances (a step of instance i touches only component i), instantiated by kernel-decided facts re-extracted from generated code on every run (only package-level variable is the rul3s name table, never written; no goroutines); dynamic validation: 32 concurrent instances under the race detector equal sequential results.',
          'as C09; callers are assumed not to share receivers or user fields between instances.'),
